@@ -441,6 +441,45 @@ var mdVals = []string{"v", "", "hello world", "tab\there", "nl\nx", "\x7f", "é"
 var plainKeys = []string{"a", "b", "_metadata", "_metadata[", "_metadata]", "_metadatax[a]", "x_metadata[a]", "_metadata[a]x", "meta[a]", "_METADATA[a]", "field.sub", "_metadata[a][b]", "_metadata[]"}
 var params = []string{"", "", "", "_metadata", "meta", "m", "_metadata[", "a]"}
 
+// rawSegs: '&'-separated segments that exercise every path of url.ParseQuery (Go 1.23): empty segments, no '=',
+// empty key / value, several '=', ';' (segment rejected), '+', malformed and truncated %-escapes in key or value
+// (pair skipped, parsing continues), lower/upper-case hex, escaped spellings of the metadata key, raw high bytes.
+var rawSegs = []string{"", "k", "k=", "=v", "=", "k=v=w", "a;b=1", ";", "k=%zz", "k=%4", "k=%", "%=v", "%zz=v", "k=a+b", "k+1=v", "+=+",
+	"%5Fmetadata%5Bx-a%5D=w", "PARAM[x-a]=%7f", "PARAM[x%20]=u", "PARAM[X-A]=v%201", "PARAM%5bx-a]=+", "PARAM[x-a];=v", "PARAM[x-a]=v;",
+	"PARAM[x-a]=%", "PARAM[%41]=1", "PARAM[x-a]=a%26b", "PARAM[x-a]=a%3bb", "PARAM[x-a]", "PARAM[x-a]=", "PARAM[x-b]=%c3%A9", "PARAM[x-a]=1", "PARAM[X-a]=2",
+	"PARAM[x-a%5D=3", "PARAM[x-a]=%2", "PARAM[x-%]=v", "PARAM[x-a]%=v", "PARAM[]=e", "PARAM[[]]=e", "PARAM[x+y]=p", "%26=%3D", "k=%00", "k=%c3%a9", "k=\xc3\xa9", "k=\xff",
+	"field.sub=1", "a=1", "a=2", "b=x%20y", "%61=3", "PARAMx[a]=n", "xPARAM[a]=n"}
+
+func genRawQuery(r *rand.Rand, param string, targetSafe bool) string {
+	p := param
+	if p == "" {
+		p = "_metadata"
+	}
+	var parts []string
+	for n := 1 + r.Intn(6); n > 0; n-- {
+		seg := strings.ReplaceAll(common.Pick(r, rawSegs), "PARAM", p)
+		if r.Intn(6) == 0 && len(seg) > 0 { // one random byte-level mutation
+			i := r.Intn(len(seg) + 1)
+			ins := common.Pick(r, []string{"%", ";", "+", "=", "%2", "%G1", "%5d", "%5B", "&"})
+			if !targetSafe && r.Intn(3) == 0 {
+				ins = common.Pick(r, []string{" ", "#", "\x00", "\n", "\x7f", "\t"})
+			}
+			seg = seg[:i] + ins + seg[i:]
+		}
+		parts = append(parts, seg)
+	}
+	q := strings.Join(parts, "&")
+	if targetSafe { // bytes that would break the request line itself are not the query parser's business
+		q = strings.Map(func(c rune) rune {
+			if c <= 0x20 || c == 0x7f || c == '#' {
+				return -1
+			}
+			return c
+		}, q)
+	}
+	return q
+}
+
 func genQuery(r *rand.Rand, param string) string {
 	p := param
 	if p == "" {
@@ -482,10 +521,10 @@ func (Area) Gen(r *rand.Rand, tier string, emit func(string)) {
 	disp("GET", "", nil)
 	disp("POST", "a=1", [][2]string{{"Content-Type", "application/json"}})
 	disp("GET", "_metadata[x-a]=1&b=2", hs)
-	disp("GET", "", append([][2]string{{"Connection", "keep-alive, Upgrade"}, {"Upgrade", "websocket"}}, hs[2:]...))                      // Firefox
-	disp("GET", "", append([][2]string{{"Connection", "keep-alive"}, {"Connection", "Upgrade"}, {"Upgrade", "websocket"}}, hs[2:]...))    // split lines
-	disp("GET", "", append(append([][2]string{}, hs...), [2]string{"Sec-WebSocket-Protocol", "grpc-websockets"}))                          // improbable-eng client
-	disp("GET", "", append(append([][2]string{}, hs...), [2]string{"Sec-WebSocket-Protocol", "foo, grpc-websockets"}))                     // list-valued offer
+	disp("GET", "", append([][2]string{{"Connection", "keep-alive, Upgrade"}, {"Upgrade", "websocket"}}, hs[2:]...))                   // Firefox
+	disp("GET", "", append([][2]string{{"Connection", "keep-alive"}, {"Connection", "Upgrade"}, {"Upgrade", "websocket"}}, hs[2:]...)) // split lines
+	disp("GET", "", append(append([][2]string{}, hs...), [2]string{"Sec-WebSocket-Protocol", "grpc-websockets"}))                      // improbable-eng client
+	disp("GET", "", append(append([][2]string{}, hs...), [2]string{"Sec-WebSocket-Protocol", "foo, grpc-websockets"}))                 // list-valued offer
 	disp("GET", "", append(append([][2]string{}, hs...), [2]string{"Sec-WebSocket-Protocol", "foo"}, [2]string{"Sec-WebSocket-Protocol", "grpc-websockets"}))
 	disp("POST", "", [][2]string{{"Content-Type", "application/grpc-web+proto"}})
 	disp("POST", "", [][2]string{{"Content-Type", "application/grpc-web"}})
@@ -595,11 +634,11 @@ func (Area) Gen(r *rand.Rand, tier string, emit func(string)) {
 	for _, via := range []string{"direct", "bridge"} {
 		wsmd(via, "", nil)
 		wsmd(via, "_metadata[x-a]=1&b=2", nil)
-		wsmd(via, "_metadata[authorization]=Bearer+q", [][2]string{{"Authorization", "Bearer h"}})                 // colliding name: both must arrive, query first
+		wsmd(via, "_metadata[authorization]=Bearer+q", [][2]string{{"Authorization", "Bearer h"}}) // colliding name: both must arrive, query first
 		wsmd(via, "_metadata[Authorization]=q1&_metadata[Authorization]=q2", [][2]string{{"authorization", "h1"}, {"AUTHORIZATION", "h2"}})
 		wsmd(via, "_metadata[grpc-timeout]=10S", [][2]string{{"Grpc-Timeout", "20S"}})
 		wsmd(via, "_metadata[x-only-query]=q", [][2]string{{"X-Only-Header", "h"}})
-		wsmd(via, "_metadata[upgrade]=q&_metadata[connection]=q", nil)                                              // colliding with the handshake's own headers
+		wsmd(via, "_metadata[upgrade]=q&_metadata[connection]=q", nil) // colliding with the handshake's own headers
 		wsmd(via, "_metadata[sec-websocket-key]=q", nil)
 	}
 	nWS := 500
@@ -646,5 +685,52 @@ func (Area) Gen(r *rand.Rand, tier string, emit func(string)) {
 	for i := 0; i < nMdq; i++ {
 		param := common.Pick(r, params)
 		mdq(param, genQuery(r, param))
+	}
+	// RAW query strings through the real entry points: url.ParseQuery is inside the model (GB/C19/Query.lean)
+	mdq("", "a=1&&b=%zz&c;d=2&e=+%41&=x&f&_metadata[X-A]=v%201&%5Fmetadata%5bx-a%5D=w&_metadata[x-a]=%7f&_metadata[x%20]=u&g=%4") // = theorem C19_rawquery_example
+	for _, seg := range rawSegs {
+		seg = strings.ReplaceAll(seg, "PARAM", "_metadata")
+		mdq("", seg)
+		mdq("", "a=1&"+seg+"&_metadata[x-z]=z")
+		if !strings.ContainsAny(seg, "\x00 ") {
+			disp("GET", seg, nil)
+			wsmd("bridge", "a=1&"+seg+"&_metadata[x-z]=z", nil)
+		}
+	}
+	// RAW header bytes: the header block is written verbatim on a TCP connection to a real net/http server in front of the
+	// real WebBridge; the driver runs the model of textproto.ReadMIMEHeader + net/http's checks (GB/C07/Wire.lean) on the
+	// same bytes.  Irregular lines: continuation lines, a name with a trailing SP, empty name, missing colon, CTL / NUL /
+	// non-ASCII bytes in names and values, bare LF and stray CR, a second line smuggled in through a value, OWS around values.
+	wireIrregular := [][2]string{
+		{"Connection", "keep-alive,\r\n Upgrade"}, {"Connection", "keep-alive\r\n\t, upgrade"}, {"Connection", "Upgrade\r\n\tx"}, {"Connection", "Up\r\n grade"},
+		{"Connection ", "Upgrade"}, {"Connection\t", "Upgrade"}, {" Connection", "Upgrade"}, {"connection", "upgrade"}, {"CONNECTION", "UPGRADE"}, {"cOnNeCtIoN", "uPgRaDe"},
+		{"Connection", " \t Upgrade \t "}, {"Connection", ""}, {"Connection", "Upgrade\r"}, {"Connection", "Upgrade\x00"}, {"Connection", "Upgrade, \xff"}, {"Connection", "\xc5\xbfupgrade"},
+		{"X-A", "1\r\nConnection: Upgrade"}, {"X-A", "1\nConnection: Upgrade"}, {"X-A", "1\r\nConnection:Upgrade"}, {"X-A", "1\r\nconnection:\tupgrade "}, {"X-A", "1\r\nConnection Upgrade"},
+		{"X-Nul", "a\x00b"}, {"X-Del", "a\x7fb"}, {"X-\xc3\x89", "1"}, {"", "v"}, {"X-NoColon\r\nbroken", "v"}, {"X(a)", "v"}, {"X-A", "\xff\xfe"}, {"X-A", "a\r\n \r\n"},
+		{"Connection", "close\r\nConnection: Upgrade"}, {"Connection", "Upgrade\r\n\r\nX-After: 1"},
+	}
+	for _, irr := range wireIrregular {
+		disp("GET", "", append([][2]string{irr, {"Upgrade", "websocket"}}, hs[2:]...))
+		disp("GET", "", append(append([][2]string{{"Upgrade", "websocket"}}, hs[2:]...), irr))
+		disp("GET", "", append(append([][2]string{}, hs...), [2]string{strings.Replace(irr[0], "onnection", "ec-WebSocket-Protocol", 1), strings.NewReplacer("Upgrade", "grpc-websockets", "upgrade", "GRPC-websockets").Replace(irr[1])}))
+		disp("POST", "", [][2]string{{"Content-Type", "application/grpc-web"}, irr})
+	}
+	nRawMdq, nRawDisp := 3000, 120
+	if tier == "thorough" {
+		nRawMdq, nRawDisp = 150000, 5000
+	}
+	for i := 0; i < nRawMdq; i++ {
+		param := common.Pick(r, params)
+		mdq(param, genRawQuery(r, param, false))
+	}
+	for i := 0; i < nRawDisp; i++ {
+		switch r.Intn(3) {
+		case 0:
+			disp("GET", genRawQuery(r, "", true), nil)
+		case 1:
+			disp("GET", genRawQuery(r, "", true), hs)
+		default:
+			wsmd(common.Pick(r, []string{"direct", "bridge"}), genRawQuery(r, "", true), nil)
+		}
 	}
 }
